@@ -118,6 +118,12 @@ def _(w):
     return impl.URL.build(scheme="http", host="h.com", path="/" + w)
 
 
+@route("build_path_auth_rootless", "build", _one("path", "decoded", has_authority=True))
+def _(w):
+    # a path that does not start with '/' together with a host: rejected with ValueError unless dot removal leaves it rooted
+    return impl.URL.build(scheme="http", host="h.com", path=w)
+
+
 @route("build_path_noauth", "build", _one("path", "decoded", has_authority=False))
 def _(w):
     return impl.URL.build(path=w)
